@@ -14,6 +14,7 @@
 #include <GeographicLib/Geocentric.hpp>
 #include <sys/stat.h>
 #include <unistd.h>
+#include <sys/resource.h>
 #include <string>
 #include <vector>
 #include <memory>
@@ -24,7 +25,6 @@ using mc::Ctx; using mc::fx; using mc::fmt; using mc::fmti;
 using sph::Q;
 using namespace sphtol;
 
-static bool dev_on(const char* sub) { const char* e = getenv("C19_DEV_SUBS"); return !e || strstr(e, sub); }   // DEV ONLY
 
 // ---------------------------------------------------------------- generated data files
 static std::string g_dir;
@@ -38,7 +38,6 @@ static std::string datadir() {
   return g_dir = d;
 }
 static void cleanup() {
-  if (getenv("C19_DEV_KEEP")) return;   // DEV ONLY
   for (auto& f : g_files) unlink(f.c_str());
   if (!g_dir.empty()) { rmdir((g_dir + "/magnetic").c_str()); rmdir((g_dir + "/gravity").c_str()); rmdir(g_dir.c_str()); }
 }
@@ -121,7 +120,9 @@ struct Fail {                      // bundles the failure reporting of one case
 
 // a library call that dies with a signal is a failure of the case, not of the harness
 template <class Fn> static bool safe(const Fail& fl, Fn f) {
-  int sg = mc::crashed(f);
+  int sg = 0;
+  try { sg = mc::crashed(f); }
+  catch (const std::exception& e) { fl.ctx.fail(fl.key + " exception", std::string("library call threw: ") + e.what(), fl.with("exception")); return false; }
   if (sg) { fl.ctx.fail(fl.key + " crash", "library call died with signal " + fmti(sg), fl.with("crash")); return false; }
   return true;
 }
@@ -732,11 +733,12 @@ int main(int argc, char** argv) {
   Ctx ctx(argc, argv);
   const bool T = ctx.thorough();
   atexit(cleanup);
+  { struct rlimit rl; rl.rlim_cur = rl.rlim_max = rlim_t(6) << 30; setrlimit(RLIMIT_AS, &rl); }   // a wild allocation becomes bad_alloc, not an OOM kill
   ctx.note("models are loaded from files generated by the harness (documented WMMF/EGMF formats); a unit of work writes, loads and removes its own files");
-  if (dev_on("magnetic")) sub_magnetic(ctx, T);
-  if (dev_on("fieldcomponents")) sub_components(ctx, T);
-  if (dev_on("gravity")) sub_gravity(ctx, T);
-  if (dev_on("normalgravity")) sub_normalgravity(ctx, T);
+  sub_magnetic(ctx, T);
+  sub_components(ctx, T);
+  sub_gravity(ctx, T);
+  sub_normalgravity(ctx, T);
   int rc = ctx.finish();
   cleanup();
   return rc;
